@@ -138,6 +138,30 @@ def handle (ws : List String) : String :=
       | some t => (match spellClass t.toList with | some c => "ok " ++ hex (String.ofList c) | none => "ok none")
       | none => "err bad-hex"
   | ["elements"] => "ok " ++ " ".intercalate elementSymbols
+  | ["cellimp", hx] =>
+      -- (imp (cells (c v v …) …) (cards (card tok …) …)): the importance of every cell, in card order: the maximum of
+      -- its IMP keywords if it has any, else the entry at its position of the per-rank maximum of the expanded cards
+      (match unhex hx >>= Sexp.parse with
+       | none => "err bad-sexp"
+       | some s =>
+         let cells : Option (List (List Float)) := (s.field? "cells").bind fun cs => cs.args.mapM fun c =>
+           c.args.mapM fun a => a.atom? >>= parseFloat?
+         let cards : Option (List (List String)) := (s.field? "cards").bind fun cs => cs.args.mapM fun c =>
+           c.args.mapM fun a => a.atom?
+         match cells, cards with
+         | some cells, some cards =>
+           (match cards.mapM fun toks => (match expandChecked none (toks.map classifyTok) with
+                                          | .ok (r, _) => some r | .error _ => none) with
+            | none => "ok error card"
+            | some expanded =>
+              match importanceCards expanded with
+              | .error _ => "ok error unequal"
+              | .ok combined =>
+                "ok " ++ " ".intercalate ((List.range cells.length).map fun i =>
+                  match cellImportance (cells.getD i []) combined i with
+                  | some v => toString v.toBits
+                  | none => "none"))
+         | _, _ => "err bad-request")
   | "expand" :: expected :: toks =>
       let exp := if expected == "-" then none else expected.toNat?
       match expandChecked exp (toks.map classifyTok) with
